@@ -91,6 +91,23 @@ func (cr *caseRun) doNew(line string) bool {
 	return true
 }
 
+// doFailAlloc: `failalloc k` — the next k calls of alloc.Alloc fail with ENOMEM
+func (cr *caseRun) doFailAlloc(line string) bool {
+	f := strings.Fields(line)
+	if len(f) != 2 {
+		return false
+	}
+	k, err := strconv.Atoi(f[1])
+	if err != nil || k < 0 || k > 1000 {
+		return false
+	}
+	journal(line)
+	failLeft.Store(int64(k))
+	cr.emit(line, "ok")
+	cr.c.Count("failalloc", line, true)
+	return true
+}
+
 // pick a piece, biased by what the call wants
 func pickPiece(r *vhlib.Rand, st *store, want func(p *psnap, i int) bool) int {
 	var c []int
@@ -412,6 +429,7 @@ func (cr *caseRun) finish() {
 	cr.accounting()
 	// cleanup outside the op stream: give everything back
 	curEngine = nil
+	failLeft.Store(0)
 	stuck := false
 	for _, w := range cr.e.workers {
 		if w.call != nil {
@@ -448,6 +466,7 @@ func (cr *caseRun) begin(c *vhlib.Ctx, line string, nthreads int) {
 	curEngine = cr.e
 	cr.base = alloc.Bytes()
 	cr.lastAlloc = cr.base
+	failLeft.Store(0)
 	cr.emit(line, "ok")
 }
 
@@ -470,6 +489,9 @@ func genCase(c *vhlib.Ctx, cfg *Config, idx int, seed uint64) {
 	}
 	steps := 20 + r.Intn(90)
 	for k := 0; k < steps; k++ {
+		if r.Chance(3) { // allocation failures: mmap refused for the next allocation(s)
+			cr.doFailAlloc(fmt.Sprintf("failalloc %d", r.PickInt(1, 1, 1, 2, 3, 0)))
+		}
 		w := cr.e.workers[r.Intn(nthreads)]
 		if cr.blocked(w) && !r.Chance(8) {
 			continue
@@ -531,6 +553,8 @@ func replay(c *vhlib.Ctx, lines []string) {
 			continue
 		case f[0] == "new":
 			cr.doNew(l)
+		case f[0] == "failalloc":
+			cr.doFailAlloc(l)
 		case f[0] == "end":
 			closeCase()
 		case strings.HasPrefix(f[0], "T") && len(f) >= 2:
@@ -561,6 +585,7 @@ func runChild(cfg *Config) {
 		journalF = jf
 	}
 	piece.VerifSetYield(yieldFn)
+	alloc.VerifSetFailAlloc(failAllocFn)
 	startWatchdog()
 	if c.Replay != "" {
 		replay(c, c.ReplayLines())
